@@ -38,7 +38,7 @@ func runC11(c *fw.Ctx, idx int) fw.Result {
 	var res fw.Result
 	r := fw.NewRng(c.Seed, "C11", idx)
 	format := []string{"gb", "gff"}[r.Intn(2)]
-	opts := gen.AnnoOpts{MaxFeats: 4, AllowUnnamed: true, AllowSlip: true, SplitCodons: true, SamConflicts: true, Rotate: true, NoStop: true}
+	opts := gen.AnnoOpts{MaxFeats: 4, AllowUnnamed: true, AllowSlip: true, SplitCodons: true, SamConflicts: true, Rotate: true, NoStop: true, AllNQuery: true}
 	vp := gen.DefaultVarProfile()
 	nqMax := 6
 	if idx%300 == 5 && (!c.Thorough() || idx%3000 == 5) {
